@@ -765,3 +765,21 @@ def split_conditional_assignments(fn: ast.FunctionDef) -> ast.FunctionDef:
     if hasattr(fn, "_module"):
         new._module = fn._module
     return new
+
+
+def closure_env(nf: NF, fn: ast.FunctionDef, inner: ast.FunctionDef, mi, outer_env: dict, qual: str = "closure") -> dict:
+    """Values of the free variables of a nested function that the enclosing function binds exactly once at its top level (and the
+    nested function never rebinds): `decay = gamma * lmbda` used inside a scan body is read as gamma*lmbda there."""
+    ocfg = nf.cfg_of(fn)
+    osc = Scope(ocfg, mi, dict(outer_env), qual)
+    local_stores = {x.id for x in ast.walk(inner) if isinstance(x, ast.Name) and isinstance(x.ctx, ast.Store)} | {a.arg for a in inner.args.posonlyargs + inner.args.args + inner.args.kwonlyargs}
+    out = {}
+    for top in fn.body:
+        if isinstance(top, ast.Assign) and len(top.targets) == 1 and isinstance(top.targets[0], ast.Name) and top.targets[0].id not in local_stores:
+            nm = top.targets[0].id
+            if sum(1 for x in ast.walk(fn) if isinstance(x, ast.Name) and x.id == nm and isinstance(x.ctx, ast.Store)) == 1:
+                try:
+                    out[nm] = nf.poly(top.value, osc, ocfg.stmt_node[id(top)])
+                except Exception:
+                    continue
+    return out
